@@ -71,7 +71,7 @@ fn scenarios_for(prop: &str) -> Option<(Vec<Box<dyn Scenario>>, Report)> {
             base(
                 "C08",
                 "exploration",
-                "one run = one history of 4..64 events over 8 registers, executed in lock-step on the ConstMontyForm (table moduli), MontyForm and BoxedMontyForm replicas against the Z/mZ reference model; every touched register of every replica is checked after every event (stored form < m, retrieve == model, replicas agree, boxed precision), all registers again at the end; parameter sets from new / new_vartime / from_const_params / impl_modulus! are compared with each other and with their definitions once per run. Batch c08-history is fault-free; batch c08-history-faults adds RNG (try_random on scripted/failing tapes) and persist/restore (serde seam + medium faults) events. distinct_nontrivial = distinct abstract states (operation, modulus class, width class) plus (width, modulus class, replica set)",
+                "one run = one history of 4..64 events over 8 registers, executed in lock-step on the ConstMontyForm (table moduli), MontyForm and BoxedMontyForm replicas against the Z/mZ reference model; every touched register of every replica is checked after every event (stored form < m, retrieve == model, replicas agree, boxed precision), all registers again at the end; parameter sets from new / new_vartime / from_const_params / impl_modulus! are compared with each other and with their definitions once per run. A cross-select event selects between a register and a value of a second seeded modulus of the same width (runtime forms carry their parameters): choice 0 gives the register back, choice 1 a value whose parameters equal those built directly for the second modulus and whose add / sub / mul / double / neg / square / halve track that modulus. Batch c08-history is fault-free; batch c08-history-faults adds RNG (try_random on scripted/failing tapes) and persist/restore (serde seam + medium faults) events. distinct_nontrivial = distinct abstract states (operation, modulus class, width class) plus (width, modulus class, replica set)",
                 &["reference model ZmodM on num-bigint", "RNG tape for ConstMontyForm::try_random", "serde format + storage medium for persist/restore"],
                 &[
                     "to_words()/from_words() bridge; Monty::as_montgomery / as_montgomery() as the read-out of the stored form",
@@ -87,7 +87,7 @@ fn scenarios_for(prop: &str) -> Option<(Vec<Box<dyn Scenario>>, Report)> {
             base(
                 "C12",
                 "exploration",
-                "one run = a history of <= 32 events over a pool of NonZero/Odd values for carriers Limb, Uint<1>, Uint<2>, Uint<4>, Int<2>, BoxedUint: produce (every public producer: new, to_nz/to_odd + every exit of the option, new_unwrap, from_u8..u128, From<core::num::NonZero*>, ONE, MAX, Default, from_{be,le}_bytes, from_{be,le}_byte_array, Odd::from_{be,le}_hex), select/assign/swap between members, conversions (as_nz_ref, AsRef<NonZero>, abs_sign, widen, Odd<Uint> -> Odd<BoxedUint>, MontyParams::modulus), random generation from a fault-injected RNG tape, deserialization of hand-built and faulted records (sim format, bincode, json), and consumers. The first 252 runs enumerate every (carrier, wrapper, producer) triple. After every event every pool member must be valid; distinct_nontrivial = distinct abstract states (event kind, producer / consumer / conversion, carrier, argument validity class, outcome)",
+                "one run = a history of <= 32 events over a pool of NonZero/Odd values for carriers Limb, Uint<1>, Uint<2>, Uint<4>, Int<2>, BoxedUint: produce (every public producer: new, to_nz/to_odd + every exit of the option, new_unwrap, from_u8..u128, From<core::num::NonZero*>, ONE, MAX, Default, from_{be,le}_bytes, from_{be,le}_byte_array, Odd::from_{be,le}_hex), select/assign/swap between members, clone_from between members (boxed: between different precisions), conversions (as_nz_ref, AsRef<NonZero>, abs_sign, widen, Odd<Uint> -> Odd<BoxedUint>, MontyParams::modulus), random generation from a fault-injected RNG tape, deserialization of hand-built and faulted records (sim format, bincode, json), and consumers. The first 252 runs enumerate every (carrier, wrapper, producer) triple. After every event every pool member must be valid; distinct_nontrivial = distinct abstract states (event kind, producer / consumer / conversion, carrier, argument validity class, outcome)",
                 &["RNG source (SimRng tapes: zero prefixes, all-even words, all-zero, short tapes, fail-at-call)", "serde format + storage medium faults", "wrapper validity predicate and stated-byte-order decoding (model)"],
                 &[
                     "validity is read through as_ref().to_words(): value != 0 / low bit set (trusted bridge)",
